@@ -162,6 +162,12 @@ CATALOGUE = [
       "if A[node3, node1] == 1 and A[node2, node3] == 1:"),
     T("c03-swap-indices", "C03", CPYX, "if A[node2, node3] == 1 and A[node3, node1] == 1:",
       "if A[node3, node2] == 1 and A[node1, node3] == 1:"),
+    T("c11-order-by-searchsorted", "C11", INW,
+      "        order = np.argsort(np.argsort(node_list))\n        A = np.array(subgraph.get_adjacency(type=2).data).astype(np.int8)",
+      "        order = np.searchsorted(np.sort(node_list), node_list)\n        A = np.array(subgraph.get_adjacency(type=2).data).astype(np.int8)"),
+    T("c11-no-igraph", "C11", INW,
+      "        subgraph = self.graph.subgraph(node_list)\n        #  Get adjacency matrix (igraph orders the subgraph's vertices by\n        #  increasing index: map rows and columns back to the given order)\n        order = np.argsort(np.argsort(node_list))\n        A = np.array(subgraph.get_adjacency(type=2).data).astype(np.int8)\n        return A[order, :][:, order]",
+      "        return self.adjacency[node_list, :][:, node_list].astype(np.int8)"),
     B("c11-drop-test", "C11", INW,
       "                        if (A[node1, node2] == 1 and A[node2, node3] == 1\n                                and A[node3, node1] == 1):",
       "                        if (A[node1, node2] == 1 and A[node2, node3] == 1):", "C11/"),
@@ -356,6 +362,17 @@ CATALOGUE = [
     # ---------------- behaviour-preserving renames / rewrites (twins)
     R("c17-rename-endpoints", "C17", CPYX, "_randomly_rewire_geomodel",
       {"s": "a1", "t": "a2", "k": "b1", "l": "b2"}),
+    T("c17-cond-commuted", "C17", CPYX,
+      "        return (degree[s] == degree[k] and degree[t] == degree[l])",
+      "        return (degree[l] == degree[t] and degree[k] == degree[s])"),
+    B("c17-cond-c1-wrong-pair", "C17", CPYX,
+      "            (abs(D[s,t] - D[k,t]) < eps and abs(D[k,l] - D[s,l]) < eps) or",
+      "            (abs(D[s,t] - D[k,t]) < eps and abs(D[k,l] - D[s,t]) < eps) or",
+      "W9/cond_len_c1"),
+    B("c17-cond-c2-dropped", "C17", CPYX,
+      "            abs(D[s,t] - D[s,l]) < eps and abs(D[t,s] - D[t,k]) < eps and\n            abs(D[k,l] - D[k,t]) < eps and abs(D[l,k] - D[l,s]) < eps)",
+      "            abs(D[s,t] - D[s,l]) < eps and abs(D[l,k] - D[l,s]) < eps)",
+      "W9/cond_len_c2"),
     R("c17-rename-cross", "C17", CPYX, "_randomlyRewireCrossLinks",
       {"e1": "first", "e2": "second", "a": "p", "b": "q", "c": "r", "d": "s"}),
     R("c17-rename-cross-params", "C17", CPYX, "_randomlyRewireCrossLinks",
